@@ -219,6 +219,10 @@ impl StateMachine<'_> {
             return Ok(());
         }
 
+        // The header is written directly to the writer: anything still waiting in the
+        // output buffer (e.g. the last lines of the previous file) must go first.
+        self.painter.emit()?;
+
         if !self.mode_info.is_empty() {
             let format_label = |label: &str| {
                 if !label.is_empty() {
